@@ -194,6 +194,11 @@ def gen_trait_level(g):
         for it in (ro, un):
             it.variants = [Variant("V0"), Variant("V1", "tuple", [Field(None, "i32")])]
     names = r.sample(["from_owned", "owned_into", "map", "try_from_ref", "into", "ref_into", "try_map_owned", "from", "into_existing" if kind == "struct" else "map_ref"], r.randint(1, 3))
+    if g.chance(0.4):
+        # an instruction name together with its try_ twin: they must not share a repeat block
+        from vlib.model import FALLIBLE_NAME, INFALLIBLE_NAME
+        n0 = names[0]
+        names.append(FALLIBLE_NAME.get(n0) or INFALLIBLE_NAME.get(n0))
     active = {}
     stats = []
     n = r.randint(3, 8)
